@@ -148,8 +148,8 @@ package store
 //@ func (*Indexer).indexTxByRecipient
 //@   ensures[others] forall h int :: old(indom(t.db.txn.ops, h)) ==> indom(t.db.txn.ops, h)
 //@ func (*Indexer).IndexTx
-//@   loop 1 invariant[aliases] forall k int :: 0 <= k && k <= iter ==> indom(t.db.txn.ops, memHash(txHashKeyOf(bytes(hashes[k]))))
-//@   ensures[identities] isnil(result) ==> forall k int :: 0 <= k && k < len(local(hashes)) ==> indom(t.db.txn.ops, memHash(txHashKeyOf(bytes(local(hashes)[k]))))
+//@   loop 1 invariant[aliases] forall k int :: 0 <= k && k <= iter ==> indom(t.db.txn.ops, memHash(txHashKeyOf(bytes(resultof(indexedTxHashes)[k]))))
+//@   ensures[identities] isnil(result) ==> forall k int :: 0 <= k && k < len(resultof(indexedTxHashes)) ==> indom(t.db.txn.ops, memHash(txHashKeyOf(bytes(resultof(indexedTxHashes)[k]))))
 
 // ---- C07: the per-transaction store is an overlay over EVERYTHING a handler writes ---------------------------------
 // A nested store (what TxnWrap puts around every transaction) has an overlay of its own for the state AND for the
